@@ -42,9 +42,14 @@ LEVEL_NOTE = ("trusted: the NumPy transcription of the docstring formula (terms 
 TECHNIQUE = ("runtime monitoring: executable reference model in lock-step (SART iterates, convergence list, stopping rule) + "
              "postcondition certificates (non-negativity, KKT, normal equations, residual-norm consistency) on every call")
 ASSUMPTIONS = ["geometry matrices are float64 ndarrays with non-negative entries, measurement vectors float64 ndarrays",
-               "initial guesses are None, Python float/int or float64 arrays; max_iterations >= 1; 0 < relaxation < 2",
+               "initial guesses are None, Python float/int, numpy.float64 or float64 arrays; max_iterations >= 1; 0 < relaxation < 2",
                "for zero-length rays / unseen cells the docstring formula is read as 'no contribution'",
-               "a minimiser is certified to relative gradient accuracy 1e-8 (scale |C|^2|x| + |C||d|)"]
+               "a minimiser is certified to relative gradient accuracy 1e-8 (scale |C|^2|x| + |C||d|)",
+               "for b = 0 the SART stopping measure is 0/0: only 'returns some iterate of the rule / stays at 0' is judged",
+               "scipy.optimize.nnls' documented RuntimeError (3n iteration budget exhausted) is a refusal, not a result: "
+               "counted, retried through **kwargs with maxiter=50n, and that result is judged",
+               "a recorder on scipy.optimize.nnls only attributes failed certificates (wrapper vs third-party solver); "
+               "verdicts are always taken on what the cherab function returned"]
 QUICK = dict(cases=2000, workers=2, timecap=40)
 THOROUGH = dict(cases=150000, workers=16, timecap=600)
 REQUIRED = {"sart_iterate": 1000, "csart_iterate": 800, "sart_conv": 500, "csart_conv": 500, "sart_stop": 50,
@@ -413,7 +418,24 @@ def _run_nnls(case, ctx, W, b):
     try:
         with warnings.catch_warnings(), np.errstate(all="ignore"):
             warnings.simplefilter("ignore")
-            res = invert_regularised_nnls(W, b, alpha=alpha, tikhonov_matrix=T)
+            try:
+                res = invert_regularised_nnls(W, b, alpha=alpha, tikhonov_matrix=T)
+            except RuntimeError as e:
+                # scipy's documented, loud refusal: default budget of 3 n active-set iterations exhausted (seen on badly
+                # scaled systems).  Nothing was returned, so nothing is judged; the documented **kwargs route is used to
+                # retry with a larger budget and that result is judged.
+                if "Maximum number of iterations" not in str(e):
+                    raise
+                ctx.skip("scipy.optimize.nnls exhausted its default 3n iterations (documented RuntimeError); retried with maxiter=50n")
+                ctx.mon("nnls_maxiter_retry")
+                del rec[:]
+                try:
+                    res = invert_regularised_nnls(W, b, alpha=alpha, tikhonov_matrix=T, maxiter=50 * W.shape[1])
+                except RuntimeError as e2:
+                    if "Maximum number of iterations" not in str(e2):
+                        raise
+                    ctx.skip("scipy.optimize.nnls did not converge within 50n iterations (documented RuntimeError): not judged")
+                    return
     except ValueError as e:
         if not (b.max() <= 0):
             raise
@@ -442,13 +464,12 @@ def _run_nnls(case, ctx, W, b):
     if tau > 0:
         dual = float(max(0.0, -g.min())) / tau
         comp = float(np.max(np.abs(x * g))) / (tau * xinf) if xinf > 0 else 0.0
-        if max(dual, comp) <= 1.0:
-            ctx.margin("nnls_kkt", max(dual, comp))
     else:
         dual = 0.0 if g.min() >= 0 else np.inf
         comp = 0.0 if not np.any(x * g) else np.inf
     # mechanism attribution for failed certificates
     upstream_kkt = upstream_rn = False
+    up_ratio = 0.0      # how inaccurate the third-party solver was on its own system (fraction of the tolerances)
     if len(rec) == 1:
         A_s, y_s, x_s, rn_s = rec[0]
         if A_s.ndim == 2 and A_s.shape[1] == x_s.shape[0] and A_s.shape[0] == y_s.shape[0] and np.all(np.isfinite(A_s)):
@@ -464,6 +485,12 @@ def _run_nnls(case, ctx, W, b):
             if tau_s > 0 and faithful:
                 upstream_kkt = bool(-g_s.min() > tau_s or (xinf_s > 0 and np.max(np.abs(x_s * g_s)) > tau_s * xinf_s))
                 upstream_rn = bool(abs(rn_s - rnn_s) > 1e-8 * nd_s + 1e-10 * nC_s * nx_s)
+                up_ratio = max(float(-g_s.min()) / tau_s, float(np.max(np.abs(x_s * g_s))) / (tau_s * xinf_s) if xinf_s > 0 else 0.0,
+                               abs(rn_s - rnn_s) / (1e-8 * nd_s + 1e-10 * nC_s * nx_s))
+    if 1e-3 < up_ratio <= 1.0:
+        ctx.mon("nnls_upstream_degraded")   # within tolerance, but scipy itself far less accurate than usual (defect tail)
+    if tau > 0 and max(dual, comp) <= 1.0 and up_ratio <= 1e-3:
+        ctx.margin("nnls_kkt", max(dual, comp))
     src = ("scipy.optimize.nnls itself returned a non-minimiser for the stacked system the wrapper handed to it "
            "(third-party solver defect passed through by the thin wrapper): ")
     if dual > 1.0:
@@ -480,7 +507,7 @@ def _run_nnls(case, ctx, W, b):
     ctx.mon("nnls_rnorm")
     err = abs(rnorm - rn)
     if err <= t:
-        if t > 0:
+        if t > 0 and up_ratio <= 1e-3:
             ctx.margin("nnls_rnorm", err / t)
     else:
         ctx.viol("nnls:scipy-nnls-rnorm-inconsistent" if upstream_rn else "nnls:residual-norm-inconsistent",
